@@ -615,3 +615,27 @@ def responder_loop_runs_and_budget_tests_have_the_right_side(ctx):
                     ctx.check(bool(dis) and dis <= side and not (dis & other - side) and bool(trunc & other), f'{init.qualname}:disabled when the identity does not fit, truncated otherwise', tt.ast,
                               'is_enabled = False on the too-long side, truncation on the other',
                               f'`{src(tt.ast)}`: the responder is switched off when the identity fits and sends an untruncated over-long description when it does not', init)
+
+
+
+@rule('C19.R1d', min_instances=1)
+def datagram_size_is_bounded_or_deep_nesting_is_contained(ctx):
+    """json.loads raises RecursionError (not a ValueError) for input nested deeper than the interpreter allows; the responder is
+    safe either because it reads at most a small, fixed number of bytes of each datagram (discovery requests are tiny; ~1 kB can
+    not nest that deep) or because the handler around json.loads covers RecursionError too"""
+    m = ctx.m
+    run = _run(m)
+    loop = _loop(run)
+    ctx.analysed(run)
+    for c in [c for c in calls_in(loop) if call_attr(c) in RECV]:
+        a = c.args[0] if c.args else None
+        v = m.const(run.module, a) if a is not None else None
+        small = isinstance(v, int) and v <= 4096
+        covered = True
+        for jl in [x for x in calls_in(loop) if call_name(x) == 'json.loads']:
+            h = covering_handler(jl, [RecursionError], run.module, stop=loop)
+            covered = covered and h is not None and not handler_leaves_loop_or_raises(h)
+        ctx.check(small or covered, f'{run.qualname}:deeply nested datagram can not end the responder', c,
+                  f'receive size {v} bytes' if small else 'RecursionError is covered',
+                  f'`{src(c)}` hands up to {v if v is not None else "?"} bytes to json.loads and the handler covers ValueError only: a datagram of some ten thousand '
+                  "'[' characters raises RecursionError, which ends the responder thread", run)
